@@ -139,6 +139,8 @@ def gen_fourier(rng, tier):
         if kind in ('partial', 'noncart') and rng.random() < 0.5:
             c['kbwidth'] = rng.choice([2.0, 3.0])   # non-default Kaiser-Bessel width (default 2.34)
             c['numpoints'] = rng.choice([5, 6])
+        if kind in ('partial', 'noncart') and 'kbwidth' not in c and rng.random() < 0.6:
+            c['os'] = rng.choice([1.5, 1.75, 2.5])   # non-integer oversampling: grid_size = int(size * oversampling)
         if kind.startswith('cart') or kind == 'dense_cart':
             ks = []
             for N in enc:
@@ -202,6 +204,8 @@ def build_fourier(c, traj=None):
         kw['nufft_kbwidth'] = c['kbwidth']
     if 'numpoints' in c:
         kw['nufft_numpoints'] = c['numpoints']
+    if 'os' in c:
+        kw['nufft_oversampling'] = c['os']
     return FourierOp(SpatialDimension(*c['recon']), SpatialDimension(*c['enc']), traj, **kw)
 
 
@@ -264,7 +268,7 @@ def _predicted_c(c, o, os_factor=2.0):
         if d in o['paths']['fft']:
             cst /= math.sqrt(c['enc'][ax])
         elif d in o['paths']['nufft']:
-            cst /= math.sqrt(int(c['recon'][ax] * os_factor))
+            cst /= math.sqrt(int(c['recon'][ax] * c.get('os', os_factor)))
     return cst
 
 
